@@ -25,5 +25,72 @@ CHECKS = {
              "the H1 bias is semantically neutral. Input space and configuration product are sampled."),
 }
 
+CHECKS.update({
+    "C04": dict(
+        engine="hx_dec", category="exploration", design_ref="DESIGN.md section 4 C04",
+        technique="runtime monitoring: ASan+UBSan+assertions, MSan, guard-page slicer, leak-balance allocator monitor, return-code and stuck-call monitors over hostile inputs",
+        text="Hostile inputs (tests/files, encoder output of every container kind, garbage; mutated, with CRC repair) are fed to "
+             "every decoding and parsing entry point under varied flags, memory limits and buffer slicings in three "
+             "instrumented builds (gcc ASan+UBSan with assertions; the same with the portable-C range decoder; clang MSan). "
+             "Monitors: sanitizer reports, guard pages around the caller's buffers, documented-return-code set, BUF_ERROR on "
+             "the second stuck call, per-call CPU budget, allocator leak balance after lzma_end. Held = no monitor fired on "
+             "the executions counted in the evidence.",
+        note="A clean sanitizer run is not memory safety (intra-object and non-adjacent overflows are invisible); only driven "
+             "paths are observed; the threaded decoder's deadlock/race side is C07's; MSan never runs encoders (inputs come "
+             "from files written by the ASan build)."),
+    "C06": dict(
+        engine="hx_dec+hx_rt", category="exploration", design_ref="DESIGN.md section 4 C06",
+        technique="runtime monitoring: self-differential of every coder against its canonical whole-buffer run over all two-piece splits and random slicings; encoder byte-determinism across slicing/threads/timeouts/textual chains",
+        text="Each decoder run is repeated under every two-piece split of short inputs, 1-byte and random slicings with empty "
+             "calls; output bytes, final status and total_in must equal the whole-buffer run of the same build (valid and "
+             "invalid inputs). Each encoder configuration is re-run under other slicings, thread counts 1-8, timeouts and "
+             "with the chain passed through its textual form; bytes must be identical. Hook counters must show every LZMA "
+             "resume point, LZMA2 sequence and BCJ hold-back path re-entered, else the run is inconclusive.",
+        note="All 2-partitions of short inputs plus random k-partitions, not all partitions of long inputs. Threaded-decoder "
+             "total_in at a fatal error is not compared (read-ahead dependent); file_info read-size independence is C13's."),
+    "C17": dict(
+        engine="xz-under-libxzio", category="fault_enumeration", design_ref="DESIGN.md section 4 C17, Appendix D",
+        technique="runtime monitoring: enumerated syscall-fault, signal and crash injection at every call index of a traced clean run (LD_PRELOAD interposer); file-system snapshot oracle; offline unlink-ordering automaton over the call log; strace -e inject as independent witness",
+        text="For each of 28 operation modes a clean traced run lists the N file-related libc calls xz makes; every k <= N is "
+             "perturbed with every applicable fault kind (hard errno, EINTR/EAGAIN/short count, handled signal, signal+EINTR, "
+             "SIGKILL). After each run: source intact or a complete valid target exists; no incomplete target left; absorbed "
+             "faults give the clean result; listed-call failures give non-zero exit, removed target, untouched source; the "
+             "Appendix D ordering automaton holds on the call log. Exhaustive in k per (mode, fault kind) for the modes, "
+             "file sizes and errno/signal sets listed in the evidence.",
+        note="Faults are injected at the libc boundary, not in the kernel/file system; durability is checked only as the order "
+             "of successful fsyncs before unlink(source); target validity is decided by Python's lzma module; four call sites "
+             "where xz ignores a failure on purpose are listed in known_findings.jsonl by call-site key."),
+    "C18": dict(
+        engine="c18_cli", category="exploration", design_ref="DESIGN.md section 4 C18, Appendix B",
+        technique="runtime monitoring: differential of the real xz/xzdec/lzmadec binaries against a public-API decode of the same tree over driver-prepared sinks; ASan+UBSan sample",
+        text="Sampled (input, tool, sink, options) cases; the real CLI binaries (rel build, sandbox active) write into prepared "
+             "sinks (new file, pipe, > at offset 0 / at EOF / not at EOF / past EOF, >> O_APPEND, --no-sparse); sink content, "
+             "st_size, exit status, file creation and the O_APPEND flag are compared with libdecode (liblzma public API), plus "
+             "-T0/1/2/4 cross-comparison and xz|xz -d round trips over random option sets.",
+        note="Trusts liblzma's single-threaded decoders as oracle (C02-C06 cover them; MT==ST is C07) and the format-sniff rule "
+             "re-implemented from the documentation. st_blocks is reported, never asserted. Messages are not compared."),
+    "C19": dict(
+        engine="c19", category="exploration", design_ref="DESIGN.md section 4 C19, Appendix B",
+        technique="runtime monitoring: model-based differential of directory post-state, exit status and diagnostics of the real xz binary; invertibility by real round trip; root and unprivileged runs",
+        text="Seeded random cases (name x kind x mode/owner/times x format x -S suffix x flag subset x privilege) are run with "
+             "the real -O2 -DNDEBUG, Landlock-sandboxed xz. Target name, refusals, overwrite protection, copied mode/owner/"
+             "group/timestamps (ns), source removal, stdout content and exit status are compared with a reference model of "
+             "xz(1). Every successful compression is undone with a real xz -d. Minimum-observation thresholds per refusal "
+             "and suffix rule.",
+        note="Trusts the Python model of xz(1) (incl. the longest-suffix rule of fix d3c8e7c); where the documentation leaves "
+             "the order of two applicable conditions open either status is accepted; ext4/relatime; single directory."),
+})
+
+ENGINES += [
+    {"name": "hx_dec", "path": "harness/hx_dec.c", "serves_properties": ["C04", "C06"],
+     "kind_free_text": "decoder-side monitors (robustness, slicing independence) under ASan/UBSan/MSan with guard-page slicer and allocator monitor"},
+    {"name": "xz-under-libxzio", "path": "preload/libxzio.c", "serves_properties": ["C17"],
+     "kind_free_text": "real xz (rel flavour, Landlock active) under an LD_PRELOAD libc-call tracer and fault injector; strace -e inject as independent witness"},
+    {"name": "c18_cli", "path": "lib/checks/c18.py", "serves_properties": ["C18"],
+     "kind_free_text": "differential runtime monitor of xz/xzdec/lzmadec against harness/libdecode.c"},
+    {"name": "c19", "path": "lib/checks/c19.py", "serves_properties": ["C19"],
+     "kind_free_text": "runtime monitor of the real xz binary against lib/models/xz_naming.py"},
+]
+
 NOT_APPLICABLE = {p: "check not built yet in this session; the technique applies (see DESIGN.md) and the check is being implemented"
                   for p in ALL if p not in CHECKS}
